@@ -194,7 +194,7 @@ func c03ProbeEncryption(c *Ctx, s *c03Set, v *c03Variant, api string, deg, level
 	noiseRaw := c03Centered(qs, c03SubRows(qs, gotRaw, wantRaw))
 	inf := c03Inf(noise)
 	bound := c03Bound(s, v.key)
-	bnd := new(big.Int).SetInt64(int64(bound))
+	bnd := c03BigBound(bound)
 
 	// finding keys of the configurations in which the code misbehaved before the fixes C03-1 … C03-5
 	key := "C03-noise-upper"
@@ -211,9 +211,25 @@ func c03ProbeEncryption(c *Ctx, s *c03Set, v *c03Variant, api string, deg, level
 	ok := inf.Cmp(bnd) <= 0
 	detail := ""
 	if !ok {
-		detail = fmt.Sprintf("noise_inf=%s bound=%d raw_reading_inf=%s Qbits=%d", inf.String(), int64(bound), c03Inf(noiseRaw).String(), c03Qbits(qs))
+		detail = fmt.Sprintf("noise_inf=%s bound=%s raw_reading_inf=%s Qbits=%d", inf.String(), bnd.String(), c03Inf(noiseRaw).String(), c03Qbits(qs))
 	}
 	c.Probe("dec_enc_noise_upper", args, key, detail)
+
+	// the recovered noise is ONE small integer polynomial: its limbs agree with each other
+	{
+		rows := c03SubRows(qs, got, want)
+		checked, d := c03LimbReport(qs, rows, bnd)
+		if !checked {
+			c.Count("error_limbs_consistent:vacuous(2*bound >= Q at this level)")
+		}
+		if d == "" && v.key == "sk" {
+			// and so is the error the encryptor sampled (twin draw), whatever the level's modulus
+			if ch, d2 := c03LimbReport(qs, Canon(rg, tE0, false, false), c03BigBound(s.Be)); ch && d2 != "" {
+				d = "sampled error: " + d2
+			}
+		}
+		c.Probe("error_limbs_consistent", args, "C03-error-limbs-inconsistent", d)
+	}
 
 	// lower side: only meaningful where the upper side holds (otherwise the noise is garbage anyway), and
 	// where the declared distribution itself makes an all-zero or repeated error vector negligible
@@ -241,8 +257,23 @@ func c03ProbeEncryption(c *Ctx, s *c03Set, v *c03Variant, api string, deg, level
 	// every component carries its own error
 	c03ProbeComponents(c, s, v, args, level, ct, ctDec, want, got, tE0, tU, tE1)
 
-	// wrong key
-	{
+	// wrong key (meaningless if the declared secret distribution produced the same key twice, e.g. N = 16 and
+	// Xs = Ternary{P: 0.25})
+	uZero := v.key == "pk" && len(tU.Coeffs) > 0
+	if uZero {
+		for _, x := range tU.Coeffs[0] {
+			if x != 0 {
+				uZero = false
+				break
+			}
+		}
+	}
+	if s.sk.Equal(s.sk2) {
+		c.Count("wrong_key_far:skipped(independent key equals the key)")
+	} else if uZero {
+		// Xs = Ternary{P: 0.1} at N = 32 draws u = 0 with probability 3%: the ciphertext is then (m + e0', e1')
+		c.Count("wrong_key_far:skipped(the declared Xs drew u = 0)")
+	} else {
 		pt2 := s.dec2.DecryptNew(ctDec)
 		got2 := Canon(rg, pt2.Value, pt2.IsNTT, pt2.IsMontgomery)
 		d := c03Inf(c03Centered(qs, c03SubRows(qs, got2, want)))
@@ -290,9 +321,14 @@ func c03ProbePublicKey(c *Ctx, s *c03Set, pk *rlwe.PublicKey, eTwin ring.Poly) {
 		inf := c03Inf(e)
 		detail := ""
 		if inf.Sign() == 0 {
-			detail = "public key carries no error"
-		} else if inf.Cmp(big.NewInt(int64(s.Be))) > 0 {
-			detail = fmt.Sprintf("noise_inf=%s bound=%d", inf.String(), int64(s.Be))
+			// (Xe = Ternary{P: 0.1} at N = 32 draws e = 0 with probability 3%: not the code's doing)
+			if c03DegeneracyNegligible(s, "sk") {
+				detail = "public key carries no error"
+			} else {
+				c.Count("pk_noise:zero error tolerated(declared Xe degenerate at this N)")
+			}
+		} else if inf.Cmp(c03BigBound(s.Be)) > 0 {
+			detail = fmt.Sprintf("noise_inf=%s bound=%.0f", inf.String(), s.Be)
 		}
 		c.Probe("pk_noise", s.hdr+" part="+name, "C03-pk-noise", detail)
 		if name == "Q" {
@@ -308,6 +344,21 @@ func c03ProbePublicKey(c *Ctx, s *c03Set, pk *rlwe.PublicKey, eTwin ring.Poly) {
 	if params.RingP() != nil {
 		check(params.RingP(), pk.Value[0].P, pk.Value[1].P, s.sk.Value.P, "P")
 	}
+	// the error of the key is ONE small integer polynomial over Q·P: the Q limbs and the P limbs agree
+	errRows := func(r *ring.Ring, pk0, pk1, sk ring.Poly) [][]uint64 {
+		t := r.NewPoly()
+		r.MulCoeffsMontgomery(pk1, sk, t)
+		r.Add(t, pk0, t)
+		return Canon(r, t, true, true)
+	}
+	qs := append([]uint64(nil), params.Q()...)
+	rows := errRows(params.RingQ(), pk.Value[0].Q, pk.Value[1].Q, s.sk.Value.Q)
+	if params.RingP() != nil {
+		qs = append(qs, params.P()...)
+		rows = append(rows, errRows(params.RingP(), pk.Value[0].P, pk.Value[1].P, s.sk.Value.P)...)
+	}
+	_, d := c03LimbReport(qs, rows, c03BigBound(s.Be))
+	c.Probe("error_limbs_consistent", s.hdr+" what=pk part=QP "+fmt.Sprintf("seed=%d", c.Seed), "C03-error-limbs-inconsistent", d)
 }
 
 // c03ShallowCopyPRNG: seeded compressed encryption through a shallow copy.
@@ -341,8 +392,8 @@ func c03ShallowCopyPRNG(c *Ctx, s *c03Set) {
 		rg := params.RingQ().AtLevel(level)
 		inf := c03Inf(c03Centered(params.Q()[:level+1], Canon(rg, pt.Value, true, false)))
 		detail := ""
-		if inf.Cmp(big.NewInt(int64(s.Be))) > 0 {
-			detail = fmt.Sprintf("expanded with the seed: noise_inf=%s bound=%d (the copy draws c1 from a fresh system PRNG)", inf.String(), int64(s.Be))
+		if inf.Cmp(c03BigBound(s.Be)) > 0 {
+			detail = fmt.Sprintf("expanded with the seed: noise_inf=%s bound=%.0f (the copy draws c1 from a fresh system PRNG)", inf.String(), s.Be)
 		}
 		c.Probe("shallowcopy_keeps_prng", s.hdr+" how="+how, "C03-shallowcopy-drops-prng", detail)
 	}
@@ -382,6 +433,11 @@ func c03Statistics(c *Ctx, s *c03Set) {
 		"pkNoP": s.sigE * math.Sqrt(2*sigU2+1),
 		"pkP":   math.Sqrt((1 + sigU2) / 12),
 	}
+	if s.nP > 0 {
+		// (u·e_pk + e0 + e1·s)/p0 on top of the rounding noise (matters for a wide Xe)
+		p0 := float64(params.P()[0])
+		nominal["pkP"] = math.Sqrt((1+sigU2)/12 + s.sigE*s.sigE*(2*sigU2+1)/(p0*p0))
+	}
 	declared := map[string]float64{
 		"sk":    params.NoiseFreshSK(),
 		"pkNoP": params.NoiseFreshPK(),
@@ -390,6 +446,11 @@ func c03Statistics(c *Ctx, s *c03Set) {
 	for _, path := range []string{"sk", "pkNoP", "pkP", "pkgen"} {
 		a := s.st.acc[path]
 		if a == nil || a.n < 1024 {
+			continue
+		}
+		// the accumulator mixes all levels: the statistic is meaningful only if the noise never wraps
+		if k := map[string]string{"sk": "sk", "pkgen": "sk", "pkNoP": "pk", "pkP": "pk"}[path]; 2*c03Bound(s, k) >= float64(params.Q()[0]) {
+			c.Count("noise_std:skipped(noise may wrap modulo q_0)")
 			continue
 		}
 		emp := a.std()
@@ -515,7 +576,7 @@ func c03DecryptReusedReceiver(c *Ctx, s *c03Set) {
 		} else {
 			enc = rlwe.NewEncryptor(params, s.pk)
 		}
-		bound := big.NewInt(int64(c03Bound(s, key)))
+		bound := c03BigBound(c03Bound(s, key))
 		for _, ntt := range []bool{true, false} {
 			for lc := 0; lc <= s.maxL; lc++ {
 				for lr := 0; lr <= s.maxL; lr++ {
@@ -641,7 +702,14 @@ func c03ProbeComponents(c *Ctx, s *c03Set, v *c03Variant, args string, level int
 		// p0·c_i − u·pk_i ≡ e_i − δ_i (mod q_j), δ_i the centred residue of u·pk_i + e_i modulo p0
 		p0 := params.P()[0]
 		rp := params.RingP().AtLevel(0)
-		q0 := qs[0]
+		// the extension to P reads the value off the limb with the largest modulus (first such limb)
+		ref := 0
+		for i, q := range qs {
+			if q > qs[ref] {
+				ref = i
+			}
+		}
+		q0 := qs[ref]
 		cent := func(x, q uint64) int64 { // centred representative (small values)
 			if x > q/2 {
 				return -int64(q - x)
@@ -650,7 +718,7 @@ func c03ProbeComponents(c *Ctx, s *c03Set, v *c03Variant, args string, level int
 		}
 		uP := rp.NewPoly()
 		for j := 0; j < N; j++ {
-			cv := cent(tU.Coeffs[0][j], q0)
+			cv := cent(tU.Coeffs[ref][j], q0)
 			if cv < 0 {
 				uP.Coeffs[0][j] = p0 - uint64(-cv)%p0
 			} else {
@@ -663,7 +731,7 @@ func c03ProbeComponents(c *Ctx, s *c03Set, v *c03Variant, args string, level int
 			rp.MulCoeffsMontgomery(uP, s.pk.Value[i].P, t)
 			upkP := Canon(rp, t, true, false)[0]
 			for j := 0; j < N; j++ {
-				ev := cent(es[i][0][j], q0)
+				ev := cent(es[i][ref][j], q0)
 				x := new(big.Int).Add(new(big.Int).SetUint64(upkP[j]), big.NewInt(ev))
 				x.Mod(x, new(big.Int).SetUint64(p0))
 				d := new(big.Int).Set(x)
